@@ -1,6 +1,7 @@
 CONSTANTS
   N = 2
   Design = "shared"
+  Fams = {"gce"}
 SPECIFICATION Spec
 INVARIANTS C09_Isolated
 CHECK_DEADLOCK FALSE
